@@ -50,6 +50,12 @@ class ExecutionPlanner:
 
             if lt.state == LoweringState.FIRST_VISIT:
                 # First visit to this task.
+                if lt.task.identifier in visited:
+                    # This task was also reached through another dependency
+                    # path and has already been processed. Reuse its
+                    # operations instead of lowering the task a second time.
+                    lt.output_ops = visited[lt.task.identifier].output_ops
+                    continue
                 visited[lt.task.identifier] = lt
 
                 if not run_again and not lt.task.should_run(self._ctx, at_least_commit):
